@@ -14,6 +14,7 @@ package main
 
 import (
 	"bytes"
+	"errors"
 	"fmt"
 	"os"
 	"path/filepath"
@@ -462,6 +463,13 @@ func (hi *hist) insert(api *cluster.ClusterNode, cd *colData, n int) error {
 func (hi *hist) create(api *cluster.ClusterNode, user, id string, np int) error {
 	col := models.Collection{UserId: user, Id: id, Replicas: 1, IndexSchema: schema, UserPlan: userPlan()}
 	if err := api.CreateCollection(col); err != nil {
+		if errors.Is(err, cluster.ErrExists) {
+			// a node that was switched off before the collection was deleted came back with its copy of
+			// the record: the name is taken.  Outside the property (it speaks about the records that
+			// exist); the client simply cannot use the name.
+			hi.h.out.Stats["hist-op:name-taken-by-resurrected-record"]++
+			return nil
+		}
 		return fmt.Errorf("create collection: %w", err)
 	}
 	cd := &colData{user: user, id: id}
